@@ -1436,7 +1436,7 @@ var timeType = reflect.TypeFor[time.Time]()
 
 // checkShow type checks the show of a value of type t in context ctx.
 func checkShow(t reflect.Type, ctx ast.Context) error {
-	if t == emptyInterfaceType {
+	if t.Kind() == reflect.Interface && t.NumMethod() == 0 {
 		return nil
 	}
 	kind := t.Kind()
